@@ -529,6 +529,14 @@ def run(ctx, load):
     check_documented(P, ctx)
     check_dispatcher(P, ctx)
     check_typed_kv(P, ctx)
+    # out-of-range indices are refused (shared with C04.index-idiom: the analyser evaluates the index arithmetic)
+    from .rules_c04 import check_index
+    before = len(ctx.obs)
+    check_index(P, ctx)
+    for o in ctx.obs[before:]:
+        o['rule'] = 'C12.index-refusal'
+    ctx.floors.pop(('C04.index-idiom', ctx.config), None)
+    ctx.floor('C12.index-refusal', 12)
 
 
 EXPLANATION = (
